@@ -172,8 +172,8 @@ def main(argv=None):
         # fair share of what is left (a level that finishes early leaves its time to the later ones);
         # thorough levels may take up to twice their share as long as every later level keeps a minimum
         share = remaining / left
-        if tier != "quick":
-            share = min(remaining - 45.0 * (left - 1), share * 2.0)
+        reserve = 45.0 if tier != "quick" else 12.0
+        share = min(remaining - reserve * (left - 1), share * 2.0)
         budget = max(5.0, min(remaining, lv.get("budget", share)))
         if remaining < 5.0:
             level_reports.append({"level": lv["name"], "params": lv, "complete": False, "skipped": True, "paths": 0})
